@@ -30,10 +30,16 @@ impl<'o> Hist<'o> {
         for r in self.runners.iter_mut() {
             obs.push(r.alloc(id, req, ty, owned, via));
         }
-        if drops_now() != drops0 {
-            self.viol(&["C13"], "value-dropped-at-alloc", format!("{} values dropped during an allocation", drops_now() - drops0));
+        // a zero-sized value has no place to live: `write` may drop it on the spot (counted, so that the total
+        // over the life of the handle can be checked); anything else must not be dropped by an allocation
+        let zst_dropper = matches!(req, Req::Typed { size: 0, .. }) && ty_info(ty).needs_drop;
+        let early_total = drops_now() - drops0;
+        let nr0 = self.runners.len();
+        if early_total != 0 && !(zst_dropper && early_total == nr0) {
+            self.viol(&["C13"], "value-dropped-at-alloc", format!("{} values dropped during an allocation", early_total));
             return;
         }
+        self.pending_early_drops = (zst_dropper, early_total / nr0.max(1));
         if !self.compare_obs("alloc", &obs) {
             return;
         }
@@ -123,7 +129,7 @@ impl<'o> Hist<'o> {
                 return;
             }
             // a null handle: track so that it can be dropped like the others
-            self.live.push(Entry { id, kind, off: 0, cap: 0, boff: 0, bcap: 0, has_handle: true, owned, via: if owned { None } else { Some(via) }, expected: vec![], dropper: false, gen: 0, recycled: false, holds_ref: owned && matches!(kind, HKind::Typed(_)) });
+            self.live.push(Entry { id, kind, off: 0, cap: 0, boff: 0, bcap: 0, has_handle: true, owned, via: if owned { None } else { Some(via) }, expected: vec![], dropper: self.pending_early_drops.0, early_drops: self.pending_early_drops.1, gen: 0, recycled: false, holds_ref: owned && matches!(kind, HKind::Typed(_)) });
             return;
         }
         if matches!(predict, Predict::ReadOnly) {
@@ -309,6 +315,7 @@ impl<'o> Hist<'o> {
             via: if owned { None } else { Some(via) },
             expected: content,
             dropper: matches!(req, Req::Typed { .. }) && ty == TY_DROPPER,
+            early_drops: 0,
             gen: 0,
             recycled,
             holds_ref: owned,
@@ -379,7 +386,10 @@ impl<'o> Hist<'o> {
         let dd = drops_now() - drops0;
         if e.dropper && !explicit {
             self.out.inc("c13_value_drop_checks");
-            if dd != nr {
+            if e.cap == 0 {
+                self.out.inc("c13_zero_sized_value_drop_checks");
+            }
+            if dd + e.early_drops * nr != nr {
                 self.viol(&["C13"], "value-drop-count", format!("dropping the handle of a needs_drop value ran its destructor {} times per arena (expected once)", dd as f64 / nr as f64));
                 return;
             }
@@ -835,6 +845,22 @@ impl<'o> Hist<'o> {
             self.viol(&["C16"], "accessor:read_only", format!("read_only()={} after {:?}", ro, mode));
             return;
         }
+        // C16: the descriptive accessors report the mode and options of *this* open
+        {
+            let d = self.runners[0].describe();
+            let rc = self.runners[0].cfg().clone();
+            for (k, v) in expected_describe(&rc, ro) {
+                let got = d.iter().find(|x| x.0 == k).map(|x| x.1.clone()).unwrap_or_default();
+                if got != v {
+                    self.viol(&["C16"], &format!("accessor:{}", k), format!("after {:?}: {}() = {} but the arena was opened with {} ({:?})", mode, k, got, v, rc.backend));
+                    break;
+                }
+            }
+            self.out.inc("c16_accessor_tables_checked_after_reopen");
+            if self.failed {
+                return;
+            }
+        }
         let old_cap = self.model.cap;
         self.model.cap = post.0.cap;
         self.model.ro = ro;
@@ -882,6 +908,10 @@ impl<'o> Hist<'o> {
                     }
                 }
                 self.out.inc("c09_readonly_sessions");
+                if self.stay_read_only {
+                    // the history ends in this read-only session (teardown is observed on it)
+                    return;
+                }
                 self.model.ro = false;
                 self.model.cap = old_cap.max(self.model.cap.min(old_cap));
                 self.reopen_writable_and_compare(&pre, &mem_pre, old_cap, "after-read-only-session");
@@ -1016,7 +1046,7 @@ impl<'o> Hist<'o> {
                     self.unobserved_releases += 1;
                     let d0 = drops_now();
                     self.runners[0].drop_handle(e.id);
-                    if e.dropper && drops_now() - d0 != 1 {
+                    if e.dropper && drops_now() - d0 + e.early_drops != 1 {
                         self.viol(&["C13"], "value-drop-count", "needs_drop value not dropped exactly once".to_string());
                     }
                 }
